@@ -241,6 +241,36 @@ let run_foldexpr payload =
   | [e] -> sx_of_expr (fold fold_table (expr_of_sx e))
   | _ -> failwith "foldexpr payload"
 
+(* ---- partial: <store> <req> <policy> ---- *)
+let run_partial payload =
+  match payload with
+  | [store; req; pol] ->
+    let en = env_of_sx store req in
+    let (id, p) = policy_of_sx pol in
+    let annots = (match pol with L l when List.length l > 7 -> List.nth l 7 | _ -> L [A "annots"]) in
+    (match partial_policy en p with
+     | None -> L [A "drop"]
+     | Some r -> L [A "keep"; sx_of_policy id annots r])
+  | _ -> failwith "partial payload"
+
+(* ---- psound: <store> <template req> <policy> (comps (c req1 req2)...) ---- *)
+let run_psound payload =
+  match payload with
+  | [store; req; pol; L (A "comps" :: comps)] ->
+    let en = env_of_sx store req in
+    let (_, p) = policy_of_sx pol in
+    let r = partial_policy en p in
+    let outs = List.map (function
+        | L [A "c"; r1; r2] ->
+          let o1 = outcome_sx (bool_eval (env_of_sx store r1) (policy_to_expr p)) in
+          let o2 = (match r with
+              | Some rp -> outcome_sx (bool_eval (env_of_sx store r2) (policy_to_expr rp))
+              | None -> A "na") in
+          L [A "o"; o1; o2]
+        | _ -> failwith "bad comp") comps in
+    L (A (match r with Some _ -> "keep" | None -> "drop") :: outs)
+  | _ -> failwith "psound payload"
+
 (* ---- pshist: (ops op...) ---- *)
 let pool_eff h = match int_of_cz h with 1 | 3 -> Forbid | _ -> Permit
 let pool_ev h = match int_of_cz h with 0 | 1 | 4 -> OTrue | 2 -> OFalse | _ -> OErr
@@ -278,5 +308,7 @@ let run_case kind payload =
   | "authz" -> run_authz payload
   | "pshist" -> run_pshist payload
   | "fold" -> run_fold payload
+  | "partial" -> run_partial payload
+  | "psound" -> run_psound payload
   | "foldexpr" -> run_foldexpr payload
   | k -> L [A "unsupported"; A k]
